@@ -707,7 +707,7 @@ def caused_by_some_pulse_lt(h, sch, chan, T0, prot, low, floor):
                                       conflict(cs_at(h, cs, k), T0, prot), low < z3.If(e >= floor, e, floor)))
 
 
-contract(SF, "_Schedule.make_next_pulse_slot", props=("C03", "C10", "C07", "C01"), lemmas=None,
+contract(SF, "_Schedule.make_next_pulse_slot", props=("C03", "C10", "C07", "C01", "C15"), lemmas=None,
          params={"self": ("ref", "_Schedule"), "pulse": ("ref", "Pulse"), "channel": "str", "phase_barrier_ts": ("list", "int"),
                  "protocol": "str", "phase_drift_params": ("opt", ("ref", "_PhaseDriftParams")), "block_over_max_duration": "bool"},
          result=("ref", "_TimeSlot"),
@@ -762,7 +762,7 @@ def add_pulse_ensures(c):
     ] + prefix(c, cs) + [(f"INV.{nm}", cl) for nm, cl in INV(c.new, cs, split=[n1 - 1])]
 
 
-contract(SF, "_Schedule.add_pulse", props=("C01", "C02", "C03", "C07", "C09", "C10"),
+contract(SF, "_Schedule.add_pulse", props=("C01", "C02", "C03", "C07", "C09", "C10", "C15"),
          params={"self": ("ref", "_Schedule"), "pulse": ("ref", "Pulse"), "channel": "str", "phase_barrier_ts": ("list", "int"),
                  "protocol": "str", "phase_drift_params": ("opt", ("ref", "_PhaseDriftParams"))},
          requires=add_pulse_requires,
